@@ -284,7 +284,40 @@ fn part2(tier: &str) -> Stats {
 // ------------------------------------------------------------------------------------------
 // Part 3: k monotonicity and scope isolation at the cache level (similarity threshold 0.0)
 // ------------------------------------------------------------------------------------------
+/// (3b) exact-key distinctness: at similarity threshold 1.0 an entry stored for query a must
+/// not answer a different query b. Every ordered pair over a lattice of un-normalised vectors
+/// (dim 1 and 2, components incl. magnitudes >= 1) — the Euclidean / inner-product case, where a
+/// different query has different distances even when it is parallel.
+fn part3b(st: &mut Stats) {
+    let vals = [-3.0f32, -2.5, -1.0, -0.5, 0.0, 0.5, 1.0, 2.0, 2.5, 3.0];
+    let mut vecs: Vec<Vec<f32>> = vals.iter().filter(|v| **v != 0.0).map(|v| vec![*v]).collect();
+    for a in vals {
+        for b in vals {
+            if a != 0.0 || b != 0.0 {
+                vecs.push(vec![a, b]);
+            }
+        }
+    }
+    for a in &vecs {
+        let cache = QueryHashCache::new(4, 1.0);
+        cache.insert_with_k_scoped(0, a.clone(), vec![SearchResult { doc_id: 1, distance: 0.25 }], 1);
+        for b in &vecs {
+            if a.len() != b.len() || a == b {
+                continue;
+            }
+            st.kscope_cases += 1;
+            if cache.get_scoped(0, b, 1).is_some() {
+                let cross: f64 = if a.len() == 2 { (a[0] as f64) * (b[1] as f64) - (a[1] as f64) * (b[0] as f64) } else { 0.0 };
+                let dot: f64 = a.iter().zip(b).map(|(x, y)| (*x as f64) * (*y as f64)).sum();
+                let kind = if cross == 0.0 && dot > 0.0 { "parallel-different-norm" } else { "different-direction" };
+                st.viol.push((format!("C07|key|entry-for-another-query-served-at-threshold-1|{kind}"), json!({"engine":"seqmc","check":"C07","part":3,"stored_query":a,"asked_query":b})));
+            }
+        }
+    }
+}
+
 fn part3(st: &mut Stats) {
+    part3b(st);
     let q1 = vec![1.0f32, 0.0, 0.0];
     let q2 = vec![0.6f32, 0.8, 0.0];
     for thr in [0.0f32, 0.5, 1.0] {
@@ -447,7 +480,7 @@ pub fn run(tier: &str, replay: Option<&str>) -> i32 {
     ev.set("race_epilogue_cache_misses", rt["misses"]);
     ev.set("race_distinct_epilogue_outcomes", routcomes.len() as u64);
     ev.set("distinct_nontrivial", tot.hits_checked + tot.prune_must_remove);
-    ev.set("rule", format!("(1) all 12^{depth} histories per metric x dim {{2,33,40}} x 3 initial states (empty, two populations of three documents at ordered distances from query 0) over searches (two queries, k 1/2, two scopes), inserts/overwrites that move a document, a new closer document, delete, metadata update, bulk load, drain; whenever the path is CacheHit the served list must be a valid fresh top-k of the current reference map (live ids, current distances, right cardinality, no omitted strictly-closer document), judged only where the uncached (ef-override) path is itself exact; (2) for every (query, inserted vector) pair of a {{0,1,32,33}}-supported lattice in dim 40 x metric x five cached-boundary values straddling the exact distance: an entry whose boundary exceeds the exact f64 distance by more than tolerance must be removed by invalidate_for_insert; (3) every ordered (k1,k2) in 1..3 and every ordered scope pair in 0..2 at similarity thresholds {{0,0.5,1}}: an entry stored for k1 never answers k2>k1 and never answers another scope; (4) the store-after-invalidate race: one searcher x one or two writers (insert that moves / adds a closer document, delete, metadata update, bulk load, drain) from two populated states, with and without a cached k=1 entry, EVERY schedule with <= 2 (quick) / 3 (thorough) preemptions under ksched; after join the same search is repeated and, if served from the cache, must be a valid fresh top-k of the final collection. non-trivial = cache hits judged + pruning cases where removal is mandatory"));
+    ev.set("rule", format!("(1) all 12^{depth} histories per metric x dim {{2,33,40}} x 3 initial states (empty, two populations of three documents at ordered distances from query 0) over searches (two queries, k 1/2, two scopes), inserts/overwrites that move a document, a new closer document, delete, metadata update, bulk load, drain; whenever the path is CacheHit the served list must be a valid fresh top-k of the current reference map (live ids, current distances, right cardinality, no omitted strictly-closer document), judged only where the uncached (ef-override) path is itself exact; (2) for every (query, inserted vector) pair of a {{0,1,32,33}}-supported lattice in dim 40 x metric x five cached-boundary values straddling the exact distance: an entry whose boundary exceeds the exact f64 distance by more than tolerance must be removed by invalidate_for_insert; (3) every ordered (k1,k2) in 1..3 and every ordered scope pair in 0..2 at similarity thresholds {{0,0.5,1}}: an entry stored for k1 never answers k2>k1 and never answers another scope; (3b) every ordered pair of distinct un-normalised query vectors over a 10-value lattice in dim 1 and 2 at threshold 1.0: an entry stored for one is never served for the other; (4) the store-after-invalidate race: one searcher x one or two writers (insert that moves / adds a closer document, delete, metadata update, bulk load, drain) from two populated states, with and without a cached k=1 entry, EVERY schedule with <= 2 (quick) / 3 (thorough) preemptions under ksched; after join the same search is repeated and, if served from the cache, must be a valid fresh top-k of the final collection. non-trivial = cache hits judged + pruning cases where removal is mandatory"));
     ev.set("samples", json!([{"part":1,"metric":"cosine","dim":40,"history":alpha.iter().take(5).collect::<Vec<_>>()},{"part":2,"coords":[0,1,32,33]}]));
     ev.set("exhaustive", true);
     ev.set("cache_hits_seen", tot.cache_hits);
